@@ -573,7 +573,15 @@ pub fn query(g: &G, t: &mut Toks, o: &mut Out) {
             // options 3 / 4: a cutoff EQUAL to a distance the search itself reports (the median of the distinct
             // unrestricted distances), without and with paths: "summed weight <= cutoff" keeps that node
             let mut cutoff: Option<f64> = None;
-            if opt >= 3 {
+            // option 5: a TARGET (the largest name reported as reachable), distances only: the target's entry is its
+            // shortest distance, not the length of the route that discovers it first
+            let mut target: Option<i64> = None;
+            if opt == 5 {
+                if let Some(Ok(m0)) = guard(|| graphrs::algorithms::shortest_path::dijkstra::single_source(g, w, x, None, None, false, false)) {
+                    target = m0.keys().cloned().max();
+                }
+            }
+            if opt == 3 || opt == 4 {
                 if let Some(Ok(m0)) = guard(|| graphrs::algorithms::shortest_path::dijkstra::single_source(g, w, x, None, None, false, false)) {
                     let mut ds: Vec<f64> = m0.values().map(|i| i.distance).collect();
                     ds.sort_by(|a, b| a.partial_cmp(b).unwrap());
@@ -583,7 +591,7 @@ pub fn query(g: &G, t: &mut Toks, o: &mut Out) {
                     }
                 }
             }
-            let r = guard(|| graphrs::algorithms::shortest_path::dijkstra::single_source(g, w, x, None, cutoff, fo, wp));
+            let r = guard(|| graphrs::algorithms::shortest_path::dijkstra::single_source(g, w, x, target, cutoff, fo, wp));
             o.obs(5001, &[vec![res_code(&r)]], &[]);
             if let Some(Ok(m)) = r {
                 let mut kv: Vec<(i64, f64)> = m.iter().map(|(k, i)| (*k, i.distance / f)).collect();
@@ -604,6 +612,19 @@ pub fn query(g: &G, t: &mut Toks, o: &mut Out) {
                     o.obs(5001, &[vec![0]], &[]);
                     o.obs(5070, &[v], &[]);
                 }
+            }
+        }
+        "alg_ev" => {
+            // eigenvector centrality of the graph this history produced (default iteration count and tolerance)
+            let w = t.i() != 0;
+            let r = guard(|| graphrs::algorithms::centrality::eigenvector::eigenvector_centrality(g, w, None, None));
+            o.obs(5001, &[vec![res_code(&r)]], &[]);
+            if let Some(Ok(m)) = r {
+                let mut kv: Vec<(i64, f64)> = m.iter().map(|(k, v)| (*k, *v)).collect();
+                kv.sort_by(|a, b| a.0.cmp(&b.0));
+                let rows: Vec<Vec<i64>> = kv.iter().map(|(k, _)| vec![*k]).collect();
+                let fl: Vec<f64> = kv.iter().map(|(_, v)| *v).collect();
+                o.obs(5090, &rows, &fl);
             }
         }
         "alg_cc" | "alg_bc" => {
